@@ -1,13 +1,13 @@
 (* C08 -- byte-stream interfaces give the same bytes however the stream is cut into calls.
-   PARTIAL in this file: the keystream wrappers (CTR all flavours, BelT-CTR, OFB) are proved in full
+   In this file: the keystream wrappers (CTR all flavours, BelT-CTR, OFB) are proved in full
    generality (any list of pieces, empty pieces included, each piece in place or buffer-to-buffer
    with any output contents, any block size / parallel width / cipher), and so are the buffered CFB
    encryptor and decryptor (two calls = one call on the concatenation, from any state pos < bs, hence
    any number of calls by induction; proved by refining the three-phase code to a byte-at-a-time
-   reading).  The prefix-preservation of one-shot CFB / CFB-8 is not proved yet; it is covered only by
-   the correspondence and the implementation-side predicate of gen/props/c08.py. *)
+   reading).  One-shot CFB and CFB-8 are prefix-preserving (C08_oneshot_cfb_prefix, C08_oneshot_cfb8_prefix):
+   for CFB by identifying the one-shot output with the buffered type's byte-at-a-time reading. *)
 From BM Require Import BlockModes Plumbing Toy Ints Ctr Belt Stream Cts Stream_proofs Interp Interp_proofs
-  Wrapper_proofs Wrapper_inst Outcome Buf_proofs.
+  Wrapper_proofs Wrapper_inst Outcome Buf_proofs Async_proofs.
 
 (* the abstract refinement: a successful call xors the input with the keystream read from the current
    position and advances the position by exactly the request; a request that does not fit is an
@@ -96,3 +96,24 @@ Example C08_pieces_example :
   Forall piece_ok [(true, [1;2;3], [1;2;3]); (true, [], []); (false, [4;5], [9;9])]%N.
 Proof. repeat constructor; cbn; auto; discriminate. Qed.
 Print Assumptions C08_pieces_example.
+
+(* one-shot CFB / CFB-8 are prefix-preserving: the output for msg is the same-length prefix of the
+   output for any extension msg ++ ext, whichever of the two calls is in place or buffer-to-buffer *)
+Theorem C08_oneshot_cfb_prefix : forall (C : cipher), cipher_wf C -> forall (enc : bool) iv (al1 al2 : bool) (msg ext out1 out2 : list N),
+  length iv = c_bs C -> length out1 = length msg -> (al1 = true -> msg = out1) ->
+  length out2 = length (msg ++ ext) -> (al2 = true -> msg ++ ext = out2) ->
+  let k := if enc then KCfbE else KCfbD in
+  snd (async_inout (bm_mbs C k) (bm_single C k) (bm_blocks C k) (bm_init C k iv) al1 msg out1) =
+  firstn (length msg)
+    (snd (async_inout (bm_mbs C k) (bm_single C k) (bm_blocks C k) (bm_init C k iv) al2 (msg ++ ext) out2)).
+Proof. exact async_cfb_prefix. Qed.
+Print Assumptions C08_oneshot_cfb_prefix.
+
+Theorem C08_oneshot_cfb8_prefix : forall (C : cipher), cipher_wf C -> forall (enc : bool) s x (al1 al2 : bool) (msg ext out1 out2 : list N),
+  length s = c_bs C -> length out1 = length msg -> (al1 = true -> msg = out1) ->
+  length out2 = length (msg ++ ext) -> (al2 = true -> msg ++ ext = out2) ->
+  let k := if enc then KCfb8E else KCfb8D in
+  snd (async_inout (bm_mbs C k) (bm_single C k) (bm_blocks C k) (s, x) al1 msg out1) =
+  firstn (length msg) (snd (async_inout (bm_mbs C k) (bm_single C k) (bm_blocks C k) (s, x) al2 (msg ++ ext) out2)).
+Proof. exact async_cfb8_prefix. Qed.
+Print Assumptions C08_oneshot_cfb8_prefix.
